@@ -1,7 +1,7 @@
 import StoneVerif.Lemmas.FeCompileDenote
 set_option linter.unusedSimpArgs false
 /-!
-Pass 3 of the compile model: everything it puts into its tables is the specification-level image of the
+Pass 3 of the compileCore model: everything it puts into its tables is the specification-level image of the
 declaration registered under that key (`Inv`), whatever the order of population.
 -/
 namespace StoneVerif.FeCompile.L
